@@ -197,6 +197,13 @@ func (propC07) Check(r *Run) []Violation {
 				writes = append(writes, w)
 			}
 		}
+		for _, d := range r.Stack.Rec.RecovDone {
+			if d.Name == ep.Name && d.Asked == "context canceled" {
+				// a re-discovery that Olla itself cancels (its own context, not the 30 s callback budget) is no re-discovery
+				add("C07/rediscovery-cancelled-by-olla", "endpoint %s at %s: the re-discovery that followed the recovery ended with %q because the context it ran under had been cancelled", ep.Name, d.At, d.Err)
+				break
+			}
+		}
 		for _, w := range r.Stack.Rec.RepoLost {
 			if w.Name == ep.Name && w.Who == "hc" {
 				add("C07/check-result-not-stored", "endpoint %s at %s: the health check's result %q did not take effect, the repository holds %q afterwards (error: %q)", ep.Name, w.At, w.Asked, w.Status, w.Err)
